@@ -24,6 +24,7 @@
 
 // local sources
 #include "dbgroup/lock/common.hpp"
+#include "dbgroup/verif/hooks.hpp"
 
 namespace
 {
@@ -77,6 +78,7 @@ OptimisticLock::GetVersion()  //
   SpinWithBackoff(
       [](const std::atomic_uint64_t *lock, uint64_t *cur) -> bool {
         *cur = lock->load(kAcquire);
+        DBGROUP_VERIF_POINT(kGetVersionLoaded, lock);
         return (*cur & kXLock) == kNoLocks;
       },
       &lock_, &cur);
@@ -91,6 +93,7 @@ OptimisticLock::PrepareRead()  //
   uint64_t cur{};
   for (size_t i = 0; true; ++i) {
     cur = lock_.load(kAcquire);
+    DBGROUP_VERIF_POINT(kPrepareOptimistic, &lock_);
     if ((cur & kXLock) == kNoLocks) return CompositeGuard{this, static_cast<uint32_t>(cur)};
     if (i >= kRetryNum) break;
     CPP_UTILITY_SPINLOCK_HINT
@@ -99,6 +102,7 @@ OptimisticLock::PrepareRead()  //
   SpinWithBackoff(
       [](std::atomic_uint64_t *lock, uint64_t *cur) -> bool {
         *cur = lock->load(kAcquire);
+        DBGROUP_VERIF_POINT(kPrepareFallback, lock);
         return (*cur & kXLock) == kNoLocks
                && ((*cur & kAllLockMask)
                    || lock->compare_exchange_weak(*cur, *cur + kSLock, kRelaxed, kRelaxed));
@@ -120,6 +124,7 @@ OptimisticLock::LockS()  //
   SpinWithBackoff(
       [](std::atomic_uint64_t *lock) -> bool {
         auto cur = lock->load(kRelaxed);
+        DBGROUP_VERIF_POINT(kAdmitS, lock);
         return (cur & kXLock) == kNoLocks
                && lock->compare_exchange_weak(cur, cur + kSLock, kAcquire, kRelaxed);
       },
@@ -134,6 +139,7 @@ OptimisticLock::LockSIX()  //
   SpinWithBackoff(
       [](std::atomic_uint64_t *lock) -> bool {
         auto cur = lock->load(kRelaxed);
+        DBGROUP_VERIF_POINT(kAdmitSIX, lock);
         return (cur & kXMask) == kNoLocks
                && lock->compare_exchange_weak(cur, cur | kSIXLock, kAcquire, kRelaxed);
       },
@@ -149,6 +155,7 @@ OptimisticLock::LockX()  //
   SpinWithBackoff(
       [](std::atomic_uint64_t *lock, uint64_t *cur) -> bool {
         *cur = lock->load(kRelaxed);
+        DBGROUP_VERIF_POINT(kAdmitX, lock);
         return (*cur & kAllLockMask) == kNoLocks
                && lock->compare_exchange_weak(*cur, *cur | kXLock, kAcquire, kRelaxed);
       },
@@ -240,6 +247,7 @@ OptimisticLock::SIXGuard::UpgradeToX()  //
   SpinWithBackoff(
       [](std::atomic_uint64_t *lock, uint64_t *cur) -> bool {
         *cur = lock->load(kRelaxed);
+        DBGROUP_VERIF_POINT(kAdmitUpgrade, lock);
         return (*cur & kSMask) == kNoLocks
                && lock->compare_exchange_weak(*cur, *cur ^ kXMask, kAcquire, kRelaxed);
       },
@@ -299,6 +307,7 @@ OptimisticLock::OptGuard::VerifyVersion()  //
       [](const std::atomic_uint64_t *lock, uint64_t *cur) -> bool {
         std::atomic_thread_fence(kRelease);
         *cur = lock->load(kRelaxed);
+        DBGROUP_VERIF_POINT(kVerifyLoaded, lock);
         return (*cur & kXLock) == kNoLocks;
       },
       &(dest_->lock_), &cur);
@@ -316,6 +325,7 @@ OptimisticLock::OptGuard::TryLockS()  //
   SpinWithBackoff(
       [](std::atomic_uint64_t *lock, uint64_t *cur, uint64_t ver) -> bool {
         *cur = lock->load(kAcquire);
+        DBGROUP_VERIF_POINT(kAdmitTryS, lock);
         return (*cur & kXLock) == kNoLocks
                && ((*cur & kVersionMask) != ver
                    || lock->compare_exchange_weak(*cur, *cur + kSLock, kRelaxed, kRelaxed));
@@ -335,6 +345,7 @@ OptimisticLock::OptGuard::TryLockSIX()  //
   SpinWithBackoff(
       [](std::atomic_uint64_t *lock, uint64_t *cur, uint64_t ver) -> bool {
         *cur = lock->load(kAcquire);
+        DBGROUP_VERIF_POINT(kAdmitTrySIX, lock);
         return (*cur & kXMask) == kNoLocks
                && ((*cur & kVersionMask) != ver
                    || lock->compare_exchange_weak(*cur, *cur | kSIXLock, kRelaxed, kRelaxed));
@@ -354,6 +365,7 @@ OptimisticLock::OptGuard::TryLockX()  //
   SpinWithBackoff(
       [](std::atomic_uint64_t *lock, uint64_t *cur, uint64_t ver) -> bool {
         *cur = lock->load(kAcquire);
+        DBGROUP_VERIF_POINT(kAdmitTryX, lock);
         return (*cur & kAllLockMask) == kNoLocks
                && ((*cur & kXAndVersionMask) != ver
                    || lock->compare_exchange_weak(*cur, *cur | kXLock, kRelaxed, kRelaxed));
@@ -402,6 +414,7 @@ OptimisticLock::CompositeGuard::VerifyVersion()  //
       [](const std::atomic_uint64_t *lock, uint64_t *cur) -> bool {
         std::atomic_thread_fence(kRelease);
         *cur = lock->load(kRelaxed);
+        DBGROUP_VERIF_POINT(kVerifyLoaded, lock);
         return (*cur & kXLock) == kNoLocks;
       },
       &(dest_->lock_), &cur);
